@@ -339,7 +339,7 @@ def emit_type(td):
         vs = []
         for (vn, vi, vshape, venc, vtag, vfields) in td.variants:
             vs.append("VariantSchema { index: %d, tag: %s, encoding: %s, unit: %s, fields: vec![%s] }" % (
-                vi, "Some(%d)" % vtag if vtag is not None else "None", td.eff_enc(venc), "true" if vshape == "unit" else "false", ", ".join(emit_field_schema(f) for f in schema_fields(vfields))))
+                vi, "Some(%d)" % vtag if vtag is not None and not td.index_only else "None", td.eff_enc(venc), "true" if vshape == "unit" else "false", ", ".join(emit_field_schema(f) for f in schema_fields(vfields))))
         kind = "Kind::Enum { index_only: %s, variants: vec![%s] }" % ("true" if td.index_only else "false", ", ".join(vs))
     out.append("pub fn schema_%s() -> TypeSchema { TypeSchema { name: \"%s\", tag: %s, kind: %s, loose: %s } }" % (td.name, td.name, "Some(%d)" % td.tag if td.tag is not None else "None", kind, "true" if td.len_only else "false"))
     return "\n".join(out)
@@ -474,7 +474,9 @@ def gen_enum(rnd, name, pool):
         td.encoding = rnd.choice([None, "array", "map"])
         n = rnd.choice([1, 2, 3, 5])
         idx = pick_indices(rnd, n)
-        td.variants = [("V%d" % k, idx[k], "unit", None, None, []) for k in range(n)]
+        # a variant-level tag is accepted on index_only enums and has no effect on the wire
+        # ("only the variant index is encoded"): the schema records no tag for these
+        td.variants = [("V%d" % k, idx[k], "unit", None, rnd.choice([None, None, 7, 300, 70000]), []) for k in range(n)]
         rnd.shuffle(td.variants)
         return finish(td)
     td.encoding = rnd.choice([None, "array", "map"])
@@ -688,7 +690,7 @@ def gen_chain(rnd, cid, pool, force=None):
         e.index_only = False
         e.encoding = force[0]
     if e.index_only:
-        e.variants = [("V%d" % k, k, "unit", None, None, []) for k in range(rnd.choice([1, 2, 3]))]
+        e.variants = [("V%d" % k, k, "unit", None, rnd.choice([None, None, 7]), []) for k in range(rnd.choice([1, 2, 3]))]
     else:
         e.variants = [("V0", 0, "unit", rnd.choice([None, "map", "array"]), None, []), ("V1", 1, "named", None, None, gen_fields(rnd, 2, pool, False, allow_skip=False, prefix="g"))]
         if rnd.random() < 0.5:
@@ -792,6 +794,22 @@ def gen_chain(rnd, cid, pool, force=None):
     ctl.fields.append(Field("must", max(used) + 1, rnd.choice([U8, STRING, BOOL])))
     finish(ctl)
     return versions, enum_versions, ctl
+
+
+def gen_unit_chain(cid, enc, tag):
+    """A chain whose first version is a unit-syntax struct (`struct S;`): later versions add only
+    optional fields, so every version must read every other one."""
+    def mk(name, fields, shape="named"):
+        td = TypeDef(name)
+        td.encoding, td.tag, td.shape = enc, tag, shape
+        td.fields = fields
+        return finish(td)
+    v0 = mk("C%dS0" % cid, [], "unit")
+    v1 = mk("C%dS1" % cid, [Field("a_1", 0, opt(U8))])
+    v2 = mk("C%dS2" % cid, [Field("b_2", 2, opt(STRING), tag=9), Field("a_2", 0, opt(U8))])
+    v3 = mk("C%dS3" % cid, [Field("a_3", 0, opt(U8)), Field("c_3", 1, opt(vec(U16))), Field("b_3", 2, opt(STRING), tag=9)], "tuple")
+    ctl = mk("C%dCtl" % cid, [Field("a_3", 0, opt(U8)), Field("c_3", 1, opt(vec(U16))), Field("b_3", 2, opt(STRING), tag=9), Field("must", 3, U8)])
+    return [v0, v1, v2, v3], [], ctl
 
 
 # --------------------------------------------------------------------------- crate emission
@@ -978,6 +996,10 @@ def main():
         for v in vs:
             all_types.append(v)
         all_types.append(ctl)
+    for k, (enc, tag) in enumerate([(None, None), ("map", None), ("array", 40)]):
+        vs, es, ctl = gen_unit_chain(nchains + len(FORCED_CHAINS) + k, enc, tag)
+        chains.append((vs, es, ctl))
+        all_types.extend(vs + [ctl])
     src = ["// @generated by gen_schemas.py", "#![allow(dead_code, unused_imports, non_snake_case, unused_variables, clippy::all)]",
            "use dsupport::drivers::{Case, Fam};", "use dsupport::{Arena, Encoding, FieldSchema, Kind, Presence, Ty, TypeSchema, VariantSchema, View};", "use vcore::rng::Rng;", ""]
     for td in all_types:
